@@ -35,6 +35,8 @@ structure Sim where
   duration : Nat
   sws : List Sw := []
   steps : Nat := 0        -- completed steps (elapsed = steps * tick)
+  fixLateRun : Bool := false  -- repair of F-C11-1: `step` refuses to begin once the duration has elapsed
+                              -- and a client is still unfinished
   deriving Repr, Inhabited
 
 /-- tick the running softwares in order; stop at the first error / panic. Returns the updated
@@ -64,12 +66,23 @@ def stepOf (m : Sim) (sws : List Sw) (fin : Bool) (abort : Option StepRes) : Sim
     if (m.steps + 1) * m.tick > m.duration && !fin then ({ m with sws := sws, steps := m.steps + 1 }, .errTimeout)
     else ({ m with sws := sws, steps := m.steps + 1 }, .cont fin)
 
-/-- `Sim::step`. -/
+/-- the guard the repair of F-C11-1 puts at the very beginning of `Sim::step`:
+    `self.elapsed > self.config.duration && self.rts.values().any(|rt| rt.is_client() && rt.is_software_running())`
+    (`elapsed = steps * tick`; `is_software_running` = the join handle is still there). -/
+def lateGuard (m : Sim) : Bool :=
+  m.fixLateRun && decide (m.steps * m.tick > m.duration) && m.sws.any (fun s => s.client && s.running)
+
+/-- `Sim::step`.  With the repair, a step that would begin after the duration has elapsed while a client is
+    still unfinished returns the timeout error at once: nothing is ticked, `elapsed` / `steps` do not advance. -/
 def step (m : Sim) : Sim × StepRes :=
+  if lateGuard m then (m, .errTimeout) else
   let t := tickAll m.tick (m.steps + 1) m.sws
   stepOf m t.1 t.2.1 t.2.2
 
-/-- `Sim::run` with fuel (the loop ends by success, error or timeout; see `C11.run_terminates`). -/
+/-- `Sim::run` with fuel (the loop ends by success, error or timeout; see `C11.run_decides`).  The fuel
+    `run` passes is at least 1 and covers every step that can begin within the duration; a step that begins
+    beyond it decides at once, with or without the repair (`C11.late_step_decides`), so the repair needs no
+    more fuel — the guarded step consumes one unit and returns. -/
 def runLoop : Nat → Sim → Sim × StepRes
   | 0, m => (m, .cont false)
   | fuel + 1, m =>
